@@ -394,16 +394,16 @@ pub fn run(args: &Args) -> i32 {
     let base_menu: Vec<u64> = vec![1, 7, 1, 6, 3, 2, 1];
     let base = model_stream(&base_menu, 3);
     let nwords = base.len() as u64;
-    rep.run("single-faults", nwords * 9 + 1, 120, true, "7-region model (edges, scaler blocks, first/last-tick edges): at every word position {drop it, duplicate it, replace it by each of 3 invalid words, flip the marker's top bit / toggle a timestamp's edge bit, corrupt a marker's counter by -4 / +4 / to 0 with the top bit intact}; plus first marker with the top bit set", |idx, loc| {
+    rep.run("single-faults", nwords * 12 + 1, 120, true, "7-region model (edges, scaler blocks, first/last-tick edges): at every word position {drop it, duplicate it, replace it by each of 6 invalid words (top byte 0x7F, channel 59, almost-header, 0xFE000001/2/3D), flip the marker's top bit / toggle a timestamp's edge bit, corrupt a marker's counter by -4 / +4 / to 0 with the top bit intact}; plus first marker with the top bit set", |idx, loc| {
         let mut ws = base.clone();
         let what;
-        if idx == nwords * 9 {
+        if idx == nwords * 12 {
             if let Some(Word::Marker { top, .. }) = ws.iter_mut().find(|w| matches!(w, Word::Marker { counter: 0, .. })) {
                 *top = true;
             }
             what = json!({"fault": "first marker has the top bit set"});
         } else {
-            let (i, f) = ((idx / 9) as usize, idx % 9);
+            let (i, f) = ((idx / 12) as usize, idx % 12);
             match f {
                 0 => {
                     ws.remove(i);
@@ -425,6 +425,12 @@ pub fn run(args: &Args) -> i32 {
                 4 => {
                     ws[i] = Word::Raw(vec![0x3C, 0x00, 0x01, 0xFE]);
                     what = json!({"fault": "invalid word (almost a scaler header)", "at": i});
+                }
+                9 | 10 | 11 => {
+                    // words with the scaler block's top byte 0xFE but another low part (a short 'length')
+                    let w = [[0x01u8, 0x00, 0x00, 0xFE], [0x02, 0x00, 0x00, 0xFE], [0x3D, 0x00, 0x00, 0xFE]][(f - 9) as usize];
+                    ws[i] = Word::Raw(w.to_vec());
+                    what = json!({"fault": "invalid word (0xFE top byte, not the scaler header)", "at": i, "word": hex(&w)});
                 }
                 5 => {
                     match &mut ws[i] {
